@@ -70,6 +70,7 @@ type pipe struct {
 	ch      <-chan []*base.LogRecord
 	worker  *bsupport.LogProcessingWorker
 	chunks  [][]base.LogChunk // per output, in the order handed to AcceptChunk
+	entered int               // records handed to the worker since the last tick
 }
 
 // inst is a fresh agent core: parsing receiver -> real byKeySet orchestrator -> real LogProcessingWorker per key set
@@ -137,6 +138,7 @@ type session struct {
 	inPass  interface{ Get() uint64 }
 	inDrop  interface{ Get() uint64 }
 	gatherE bool
+	scratch []byte
 }
 
 func (w *world) newSession(lim limits) *session {
@@ -158,11 +160,11 @@ func (s *session) exchange(conn1 []string, conn2 string) counts {
 	s.lim.apply()
 	s.cases++
 	for _, l := range conn1 {
-		s.c1.Accept([]byte(l))
+		s.accept(s.c1, l)
 	}
 	s.c1.Flush()
 	s.in.drain()
-	s.c2.Accept([]byte(conn2))
+	s.accept(s.c2, conn2)
 	s.c2.Flush()
 	s.in.drain()
 	p, d := int(s.inPass.Get()), int(s.inDrop.Get())
@@ -171,14 +173,33 @@ func (s *session) exchange(conn1 []string, conn2 string) counts {
 	return c
 }
 
+// judged forgets what has been delivered so far (called once the output of a tick has been judged).
+func (s *session) judged() {
+	for _, p := range s.in.pipes {
+		for o := range p.chunks {
+			p.chunks[o] = p.chunks[o][:0]
+		}
+		p.entered = 0
+	}
+}
+
+// accept hands one record to a sink the way multiLineReader does: as a slice of a read buffer that is overwritten by
+// the next read (so a record that keeps pointing into the caller's bytes shows up as corruption).
+func (s *session) accept(sink base.MessageReceiverSink, line string) {
+	if cap(s.scratch) < len(line) {
+		s.scratch = make([]byte, len(line)+len(line)/2)
+	}
+	b := s.scratch[:len(line)]
+	copy(b, line)
+	sink.Accept(b)
+	for i := range b {
+		b[i] = 0xEE
+	}
+}
+
 // tick fires every pipeline's periodic ticker (pending chunk flushed to the capture, metrics updated) and adds the
 // pipeline-level counter increments since the previous tick to c.
 func (s *session) tick(c *counts) {
-	for _, p := range s.in.pipes {
-		for o := range p.chunks {
-			p.chunks[o] = p.chunks[o][:0] // what the previous tick delivered has been judged
-		}
-	}
 	for _, p := range s.in.pipes {
 		p.worker.VerifOnTick()
 	}
@@ -198,6 +219,7 @@ func (in *inst) drain() {
 		for more := true; more; {
 			select {
 			case buf := <-p.ch:
+				p.entered += len(buf)
 				p.worker.VerifOnInput(buf)
 			default:
 				more = false
